@@ -458,23 +458,10 @@ func C18(c *Ctx) {
 		}
 	}
 	if fn := c.Fn("percolator", "commitKey"); fn != nil {
-		// MinCommitTs > commitVersion → return, before everything
-		found := false
-		for _, b := range fn.Blocks {
-			if ifi := ifOf(b); ifi != nil {
-				if bo, ok := ifi.Cond.(*ssa.BinOp); ok && bo.Op == token.GTR && isFieldLoad(bo.X, "percolator.Lock", "MinCommitTs") {
-					found = true
-					bad := false
-					for _, w := range Calls(fn, false, wr) {
-						if blockReaches(b.Succs[0], w.Block()) {
-							bad = true
-						}
-					}
-					c.Decide(!bad, r2, key(fn, "reject:MinCommitTs>commitVersion"), ifi.Pos(), 2, "a commit below the lock's minimum commit ts is refused before any write", "a write is reachable when MinCommitTs > commitVersion")
-				}
-			}
-		}
-		c.Decide(found, r2, key(fn, "has:MinCommitTs-guard"), fn.Pos(), 1, "guard present", "commitKey no longer refuses commitVersion < lock.MinCommitTs")
+		// commitVersion < lock.MinCommitTs → refused before any write (order-sign evaluation)
+		below, atOrAbove, n := minCommitReach(c, fn, wr)
+		c.Decide(!below, r2, key(fn, "reject:MinCommitTs>commitVersion"), fn.Pos(), n, "a commit below the lock's minimum commit ts is refused before any write", "a write is reachable when MinCommitTs > commitVersion")
+		c.Decide(!below && atOrAbove, r2, key(fn, "has:MinCommitTs-guard"), fn.Pos(), n, "guard present", "commitKey no longer refuses commitVersion < lock.MinCommitTs")
 		// commit record (CFWrite) before lock removal (CFLock delete) on the fresh-commit path
 		var commitRec, lockDel []ssa.CallInstruction
 		for _, w := range Calls(fn, false, Named("NoKV.(*DB).SetVersionedEntry")) {
@@ -657,68 +644,141 @@ func C19(c *Ctx) {
 	const r2 = "K2.expiry-and-min-commit-guards"
 	c.Rule(r2, "CheckTxnStatus rolls back a present lock only on the true edge of isLockExpired(lock, req.CurrentTs) and only when lock.Ts == req.LockTs; isLockExpired is currentTs >= lock.Ts+lock.TTL with TTL==0 never expiring; commitKey refuses commitVersion < lock.MinCommitTs; GetLock treats a tombstone as no lock")
 	if fn := c.Fn("percolator", "CheckTxnStatus"); fn != nil {
-		rbs := Calls(fn, false, Named("percolator.rollbackKey"))
 		exp := Named("percolator.isLockExpired")
-		// rollbacks reachable on the lock != nil path must be guarded by isLockExpired
+		rbM := Named("percolator.rollbackKey")
+		// rollbacks reachable on the lock != nil path must be guarded by isLockExpired; the two
+		// halves of the function may live in helpers it dispatches to
 		lockNil := Calls(fn, false, Named("percolator.(*Reader).GetLock"))
-		guarded := 0
-		for i, rb := range rbs {
-			ok, _ := guardedByCall(fn, rb.(ssa.Instruction), exp, true)
-			if ok {
-				guarded++
-				c.Pass(r2, key(fn, fmt.Sprintf("rollbackKey[%d]<-isLockExpired", i+1)), rb.Pos(), 2, "rollback of a present lock lies on the expired edge")
-				continue
+		onNilEdge := func(in ssa.Instruction) bool {
+			if len(lockNil) == 0 {
+				return false
 			}
-			// otherwise it must be on the lock == nil path
-			onNil := false
-			if len(lockNil) > 0 {
-				var lv ssa.Value
-				for _, r := range *lockNil[0].Value().Referrers() {
-					if ex, ok := r.(*ssa.Extract); ok && ex.Index == 0 {
-						lv = ex
-					}
-				}
-				for _, e := range NilEdges(fn, map[ssa.Value]bool{lv: true}) {
-					if EdgeDominates(e.Nil[0], e.Nil[1], rb.Block()) {
-						onNil = true
-					}
+			var lv ssa.Value
+			for _, r := range *lockNil[0].Value().Referrers() {
+				if ex, ok := r.(*ssa.Extract); ok && ex.Index == 0 {
+					lv = ex
 				}
 			}
-			c.Decide(onNil, r2, key(fn, fmt.Sprintf("rollbackKey[%d]<-isLockExpired|no-lock", i+1)), rb.Pos(), 2, "rollback on the lock-absent path (RollbackIfNotExist)", "a present, unexpired lock can be rolled back by CheckTxnStatus")
+			for _, e := range NilEdges(fn, map[ssa.Value]bool{lv: true}) {
+				if EdgeDominates(e.Nil[0], e.Nil[1], in.Block()) {
+					return true
+				}
+			}
+			return false
+		}
+		guarded, i := 0, 0
+		for _, site := range effectSites(c, fn, func(ci ssa.CallInstruction) bool { return rbM(ci.Common()) }, 1) {
+			g, rbs := fn, []ssa.CallInstruction{site}
+			if !rbM(site.Common()) {
+				g = StaticFn(site.Common())
+				rbs = Calls(g, false, rbM)
+			}
+			for _, rb := range rbs {
+				i++
+				ok, _ := guardedByCall(g, rb.(ssa.Instruction), exp, true)
+				if !ok && g != fn {
+					ok, _ = guardedByCall(fn, site.(ssa.Instruction), exp, true)
+				}
+				if ok {
+					guarded++
+					c.Pass(r2, key(fn, fmt.Sprintf("rollbackKey[%d]<-isLockExpired", i)), rb.Pos(), 2, "rollback of a present lock lies on the expired edge")
+					continue
+				}
+				// otherwise it must be on the lock == nil path
+				c.Decide(onNilEdge(site.(ssa.Instruction)), r2, key(fn, fmt.Sprintf("rollbackKey[%d]<-isLockExpired|no-lock", i)), rb.Pos(), 2, "rollback on the lock-absent path (RollbackIfNotExist)", "a present, unexpired lock can be rolled back by CheckTxnStatus")
+			}
 		}
 		c.Decide(guarded == 1, r2, key(fn, "single-expiry-rollback"), fn.Pos(), 1, "one expiry-guarded rollback", fmt.Sprintf("%d expiry-guarded rollbacks", guarded))
-		for _, e := range Calls(fn, false, exp) {
+		exps := Calls(fn, false, exp)
+		AllInstrs(fn, false, func(in ssa.Instruction) {
+			if ci, ok := in.(ssa.CallInstruction); ok {
+				if h := StaticFn(ci.Common()); h != nil && h.Blocks != nil && h != fn && FuncPkgPath(h) == FuncPkgPath(fn) && !exp(ci.Common()) {
+					exps = append(exps, Calls(h, false, exp)...)
+				}
+			}
+		})
+		for _, e := range exps {
 			c.Decide(isFieldLoad(e.Common().Args[1], "pb.CheckTxnStatusRequest", "CurrentTs"), r2, key(fn, "isLockExpired#arg=CurrentTs"), e.Pos(), 1, "expiry is judged against the caller's timestamp", "isLockExpired is not given req.CurrentTs")
 		}
 	}
 	if fn := c.Fn("percolator", "isLockExpired"); fn != nil {
-		geq, ttl0 := false, false
-		AllInstrs(fn, false, func(in ssa.Instruction) {
-			if bo, ok := in.(*ssa.BinOp); ok {
-				if bo.Op == token.GEQ {
-					if _, isP := bo.X.(*ssa.Parameter); isP {
-						if add, ok := bo.Y.(*ssa.BinOp); ok && add.Op == token.ADD && isFieldLoad(add.X, "percolator.Lock", "Ts") && isFieldLoad(add.Y, "percolator.Lock", "TTL") {
-							geq = true
-						}
+		// decided by order-sign evaluation: expired iff TTL != 0, Ts+TTL does not overflow and
+		// currentTs >= Ts+TTL – whatever the spelling of the overflow test (TTL > Max-Ts, the carry
+		// of bits.Add64) and of the comparison
+		var role func(v ssa.Value) string
+		role = func(v ssa.Value) string {
+			v = Unwrap(v)
+			if len(fn.Params) > 1 && v == fn.Params[1] {
+				return "cur"
+			}
+			if len(fn.Params) > 0 && v == fn.Params[0] {
+				return "lock"
+			}
+			if k, ok := v.(*ssa.Const); ok && k.IsNil() {
+				return "nil"
+			}
+			if isFieldLoad(v, "percolator.Lock", "TTL") {
+				return "ttl"
+			}
+			switch x := v.(type) {
+			case *ssa.BinOp:
+				ts := func(y ssa.Value) bool { return isFieldLoad(y, "percolator.Lock", "Ts") }
+				ttl := func(y ssa.Value) bool { return isFieldLoad(y, "percolator.Lock", "TTL") }
+				if x.Op == token.ADD && (ts(x.X) && ttl(x.Y) || ts(x.Y) && ttl(x.X)) {
+					return "deadline"
+				}
+				if x.Op == token.SUB && ts(x.Y) {
+					if k, ok := x.X.(*ssa.Const); ok && k.Value != nil && k.Value.ExactString() == "18446744073709551615" {
+						return "room"
 					}
 				}
-				if bo.Op == token.EQL && isFieldLoad(bo.X, "percolator.Lock", "TTL") {
-					if z, ok := ConstInt(bo.Y); ok && z == 0 {
-						ttl0 = true
+			case *ssa.Extract:
+				if call, ok := x.Tuple.(*ssa.Call); ok && Named("math/bits.Add64")(call.Common()) {
+					if x.Index == 0 {
+						return "deadline"
+					}
+					return "carry"
+				}
+			}
+			return ""
+		}
+		eval := func(ttl, overflow, cmp int) Tri {
+			signs := map[string]int{}
+			SetSign(signs, "lock", "nil", 1)
+			SetSign(signs, "ttl", "0", ttl)
+			SetSign(signs, "ttl", "room", overflow)
+			SetSign(signs, "carry", "0", map[bool]int{true: 1, false: 0}[overflow > 0])
+			SetSign(signs, "cur", "deadline", cmp)
+			return (&SignEnv{Role: role, Signs: signs, Depth: 1}).ReturnValue(fn, 0)
+		}
+		bad := ""
+		for _, cmp := range []int{-1, 0, 1} {
+			for _, ov := range []int{-1, 0} {
+				want := cmp >= 0
+				if got := eval(1, ov, cmp); (got == True) != want || got == Unknown {
+					if bad == "" {
+						bad = fmt.Sprintf("TTL>0, no overflow, currentTs?deadline=%d: answers %s, want %v", cmp, triName(got), want)
 					}
 				}
 			}
-		})
-		c.Decide(geq, r2, key(fn, "currentTs>=Ts+TTL"), fn.Pos(), 1, "expired iff currentTs >= lock.Ts + lock.TTL", "expiry comparison is not currentTs >= lock.Ts+lock.TTL")
-		c.Decide(ttl0, r2, key(fn, "TTL==0→never"), fn.Pos(), 1, "TTL 0 never expires", "the TTL==0 (never expires) case is gone")
+		}
+		c.Decide(bad == "", r2, key(fn, "currentTs>=Ts+TTL"), fn.Pos(), 7, "expired iff currentTs >= lock.Ts + lock.TTL", "expiry comparison is not currentTs >= lock.Ts+lock.TTL ("+bad+")")
+		ttl0 := true
+		for _, cmp := range []int{-1, 0, 1} {
+			if eval(0, -1, cmp) != False {
+				ttl0 = false
+			}
+		}
+		c.Decide(ttl0, r2, key(fn, "TTL==0→never"), fn.Pos(), 4, "TTL 0 never expires", "the TTL==0 (never expires) case is gone")
 	}
 	if fn := c.Fn("percolator", "Reader.GetLock"); fn != nil {
 		// tombstone → nil lock
 		tomb := false
 		for _, b := range fn.Blocks {
 			if ifi := ifOf(b); ifi != nil {
-				if bo, ok := ifi.Cond.(*ssa.BinOp); ok && bo.Op == token.GTR {
-					if and, ok := bo.X.(*ssa.BinOp); ok && and.Op == token.AND && isFieldLoad(and.X, "kv.Entry", "Meta") {
+				if bo, ok := ifi.Cond.(*ssa.BinOp); ok && (bo.Op == token.GTR || bo.Op == token.NEQ || bo.Op == token.EQL) {
+					// Meta&BitDelete > 0, != 0, or == 0 with the branches exchanged
+					if and, ok := bo.X.(*ssa.BinOp); ok && and.Op == token.AND && (isFieldLoad(and.X, "kv.Entry", "Meta") || isFieldLoad(and.Y, "kv.Entry", "Meta")) {
 						tomb = true
 					}
 				}
@@ -727,17 +787,8 @@ func C19(c *Ctx) {
 		c.Decide(tomb, r2, key(fn, "tombstone→no-lock"), fn.Pos(), 1, "a deleted lock entry reads as no lock", "GetLock no longer treats a tombstone as absence of a lock")
 	}
 	if fn := c.Fn("percolator", "commitKey"); fn != nil {
-		found := false
-		for _, b := range fn.Blocks {
-			if ifi := ifOf(b); ifi != nil {
-				if bo, ok := ifi.Cond.(*ssa.BinOp); ok && bo.Op == token.GTR && isFieldLoad(bo.X, "percolator.Lock", "MinCommitTs") {
-					if _, isP := bo.Y.(*ssa.Parameter); isP {
-						found = returnsNonNilPtr(b.Succs[0])
-					}
-				}
-			}
-		}
-		c.Decide(found, r2, key(fn, "MinCommitTs>commitVersion→error"), fn.Pos(), 1, "a commit below the lock's minimum commit ts is refused", "commitKey does not refuse commitVersion < lock.MinCommitTs")
+		below, atOrAbove, n := minCommitReach(c, fn, Named("NoKV.(*DB).SetVersionedEntry", "NoKV.(*DB).DeleteVersionedEntry"))
+		c.Decide(!below && atOrAbove, r2, key(fn, "MinCommitTs>commitVersion→error"), fn.Pos(), n, "a commit below the lock's minimum commit ts is refused", "commitKey does not refuse commitVersion < lock.MinCommitTs")
 	}
 	const r2c = "K2.rollback-removes-own-lock-only"
 	c.Rule(r2c, "rollbackKey removes the lock column entry only on the true edge of `lock.Ts == startTs` (the lock read with Reader.GetLock belongs to the transaction being rolled back); isLockExpired refuses to add Ts and TTL when the sum overflows uint64 (such a lock never expires)")
@@ -1215,4 +1266,45 @@ func isEmptySliceReturn(v ssa.Value) bool {
 		return true
 	}
 	return false
+}
+
+// minCommitReach evaluates commitKey under the two orderings of (commitVersion, lock.MinCommitTs):
+// is any versioned write reachable when commitVersion is below / at-or-above the lock's minimum?
+func minCommitReach(c *Ctx, fn *ssa.Function, wr Matcher) (below, atOrAbove bool, visited int) {
+	var cv ssa.Value
+	for _, p := range fn.Params {
+		if strings.EqualFold(p.Name(), "commitVersion") || strings.EqualFold(p.Name(), "commitTs") {
+			cv = p
+		}
+	}
+	if cv == nil && len(fn.Params) > 0 {
+		cv = fn.Params[len(fn.Params)-1]
+	}
+	role := func(v ssa.Value) string {
+		v = Unwrap(v)
+		if v == cv {
+			return "cv"
+		}
+		if isFieldLoad(v, "percolator.Lock", "MinCommitTs") {
+			return "min"
+		}
+		return ""
+	}
+	writes := effectSites(c, fn, func(ci ssa.CallInstruction) bool { return wr(ci.Common()) }, 1)
+	reach := func(sg int) bool {
+		signs := map[string]int{}
+		SetSign(signs, "cv", "min", sg)
+		env := &SignEnv{Role: role, Signs: signs, Depth: 1}
+		hit := false
+		for _, w := range writes {
+			if env.Reaches(fn, w.(ssa.Instruction)) {
+				hit = true
+			}
+		}
+		visited += env.Visited
+		return hit
+	}
+	below = reach(-1)
+	atOrAbove = reach(0) && reach(1)
+	return
 }
